@@ -5,8 +5,8 @@ set -u
 P="$1"; shift
 cd /repo || exit 2
 [ -z "$(git status --porcelain)" ] || { echo "/repo not clean"; exit 2; }
-git apply "$P" 2>/dev/null || git apply -3 "$P" || { echo "patch does not apply"; exit 2; }
 trap 'git -C /repo reset -q --hard HEAD ; git -C /repo status --porcelain' EXIT
+git apply "$P" 2>/dev/null || git apply -3 "$P" >/dev/null 2>&1 || { echo "$P: rc=2 patch does not apply to HEAD"; exit 2; }
 for prop in "$@"; do
   out=$(cd /verif && ./check $prop --tier quick 2>&1); rc=$?
   sigs=$(echo "$out" | grep "signature:" | sed 's/.*signature: //' | paste -sd';')
